@@ -29,9 +29,10 @@ Qed.
 Theorem step_exact e s o :
   uniq_keys (links s) -> classify e s o = None -> step e s o = spec_step e s o.
 Proof.
-  intros Hu Hc. destruct o as [ro si mb q item new|ro si mb q item new|mb q dest|mb fl|ro mb]; simpl in *.
+  intros Hu Hc. destruct o as [ro si mb q item new|ro si mb q item new|mb q dest|mb q dest|mb fl|ro mb]; simpl in *.
   - destruct ro; [reflexivity|]. now rewrite store_seq_exact.
   - destruct ro; [reflexivity|]. now rewrite store_uid_exact.
+  - reflexivity.
   - reflexivity.
   - reflexivity.
   - destruct ro; reflexivity.
@@ -59,18 +60,18 @@ Qed.
 Lemma uniq_map_pres (g : link -> link) ls : (forall l, lkey (g l) = lkey l) -> uniq_keys ls -> uniq_keys (map g ls).
 Proof. intros H Hu. unfold uniq_keys. rewrite map_map. erewrite map_ext; [exact Hu|]. exact H. Qed.
 
-Lemma uniq_move ls msg src u dest fl ls' : uniq_keys ls -> move ls msg src u dest fl = Some ls' -> uniq_keys ls'.
+Lemma uniq_move s msg src u dest fl s' : uniq_keys (links s) -> move s msg src u dest fl = Some s' -> uniq_keys (links s').
 Proof.
   unfold move. destruct (src =? dest); [discriminate|].
-  destruct (insert ls _) as [l1|] eqn:E; [|discriminate]. intros Hu [= <-].
+  destruct (insert (links s) _) as [l1|] eqn:E; [|discriminate]. intros Hu [= <-]. simpl.
   apply uniq_filter. eapply uniq_insert; eauto.
 Qed.
 
 Lemma uniq_upd_uid mb u ls fl : uniq_keys ls -> uniq_keys (upd_uid mb u ls fl).
 Proof. intros H. unfold upd_uid. apply uniq_map_pres; [|assumption]. intros l0. now destruct (has_key _ _ _). Qed.
 
-Lemma uniq_store_row e ls mb l0 item new :
-  uniq_keys ls -> uniq_keys (store_row e ls mb l0 item new).
+Lemma uniq_store_row e s mb l0 item new :
+  uniq_keys (links s) -> uniq_keys (links (store_row e s mb l0 item new)).
 Proof.
   intros Hu. unfold store_row. cbv zeta.
   destruct (junk_added _ _).
@@ -79,25 +80,48 @@ Proof.
     destruct (move _ _ _ _ _ _) eqn:E; [eapply uniq_move; eauto | now apply uniq_upd_uid].
 Qed.
 
-Lemma uniq_fold {A} (f : list link -> A -> list link) xs :
-  (forall ls x, uniq_keys ls -> uniq_keys (f ls x)) -> forall ls, uniq_keys ls -> uniq_keys (fold_left f xs ls).
+Lemma uniq_fold {A} (f : st -> A -> st) xs :
+  (forall s x, uniq_keys (links s) -> uniq_keys (links (f s x))) ->
+  forall s, uniq_keys (links s) -> uniq_keys (links (fold_left f xs s)).
 Proof. intros H. induction xs as [|x xs IH]; simpl; auto. Qed.
 
-Lemma uniq_copy_loop mb dest : forall uids ls nu ls', uniq_keys ls -> copy_loop ls mb dest nu uids = Some ls' -> uniq_keys ls'.
+Lemma uniq_store_uid_one e mb item new s u :
+  uniq_keys (links s) -> uniq_keys (links (store_uid_one e mb item new s u)).
 Proof.
-  induction uids as [|u us IH]; simpl; intros ls nu ls' Hu H; [now injection H as <-|].
+  intros H. unfold store_uid_one. destruct (find_key (links s) mb u); [now apply uniq_store_row | assumption].
+Qed.
+
+Lemma uniq_copy_loop mb dest : forall uids ls nu ls' nu',
+  uniq_keys ls -> copy_loop ls mb dest nu uids = Some (ls', nu') -> uniq_keys ls'.
+Proof.
+  induction uids as [|u us IH]; simpl; intros ls nu ls' nu' Hu H; [now injection H as <- _|].
   destruct (find_key ls mb u); [|eauto].
   destruct (insert ls _) eqn:E; [|discriminate]. eapply IH; [|exact H]. eapply uniq_insert; eauto.
 Qed.
 
+Lemma uniq_copy_seq_loop mb dest : forall ns ls nu ls' nu',
+  uniq_keys ls -> copy_seq_loop ls mb dest nu ns = Some (ls', nu') -> uniq_keys ls'.
+Proof.
+  induction ns as [|n ns IH]; simpl; intros ls nu ls' nu' Hu H; [now injection H as <- _|].
+  destruct (nth_link ls mb n); [|discriminate].
+  destruct (insert ls _) eqn:E; [|discriminate]. eapply IH; [|exact H]. eapply uniq_insert; eauto.
+Qed.
+
+Lemma uniq_copy_finish s dest r :
+  uniq_keys (links s) -> (forall ls nu, r = Some (ls, nu) -> uniq_keys ls) -> uniq_keys (links (copy_finish s dest r)).
+Proof.
+  intros Hu H. unfold copy_finish. destruct r as [[ls nu]|]; [|assumption]. simpl. now apply (H ls nu).
+Qed.
+
 Theorem uniq_step e s o : uniq_keys (links s) -> uniq_keys (links (step e s o)).
 Proof.
-  intros Hu. destruct o as [ro si mb q item new|ro si mb q item new|mb q dest|mb fl|ro mb]; simpl.
-  - destruct ro; [assumption|]. simpl. unfold store_seq. apply uniq_fold; [|assumption]. intros ls n H.
-    unfold store_uid_one. destruct (find_key ls mb n); [now apply uniq_store_row | assumption].
-  - destruct ro; [assumption|]. simpl. unfold store_uid. apply uniq_fold; [|assumption]. intros ls n H.
-    unfold store_uid_one. destruct (find_key ls mb n); [now apply uniq_store_row | assumption].
-  - unfold copy_uid. destruct (copy_loop _ _ _ _ _) eqn:E; [|assumption]. eapply uniq_copy_loop; eauto.
+  intros Hu. destruct o as [ro si mb q item new|ro si mb q item new|mb q dest|mb q dest|mb fl|ro mb]; simpl.
+  - destruct ro; [assumption|]. unfold store_seq. apply uniq_fold; [|assumption]. intros; now apply uniq_store_uid_one.
+  - destruct ro; [assumption|]. unfold store_uid. apply uniq_fold; [|assumption]. intros; now apply uniq_store_uid_one.
+  - unfold copy_uid. destruct (expand_uid (links s) mb q) as [|u0 us]; [assumption|].
+    apply uniq_copy_finish; [assumption|]. intros ls nu E. eapply uniq_copy_loop; eauto.
+  - unfold copy_seq. destruct (expand_seq (links s) mb q) as [|u0 us]; [assumption|].
+    apply uniq_copy_finish; [assumption|]. intros ls nu E. eapply uniq_copy_seq_loop; eauto.
   - unfold append. destruct (insert _ _) eqn:E; simpl; [eapply uniq_insert; eauto | assumption].
   - destruct ro; [assumption|]. simpl. unfold expunge. now apply uniq_filter.
 Qed.
